@@ -249,6 +249,13 @@ def project(prop, line, o):
         resp = buf[:2 * n] if n is not None else None
         if prop == "C10":
             return tuple(rt) if res.startswith("panic") else ("returns",)
+        if prop == "C03":
+            rb = bytes.fromhex(resp) if resp else b""
+            return (n, len(rb) > 0 and rb[-1] == gen.crc8(rb[:-1]))
+        if prop == "C04":
+            return (n, resp[:8] if resp else None)
+        if prop == "C05":
+            return (n is not None, resp[8:18] if resp else None)
         if prop == "C02":
             return (res.startswith("ok"), buf if not res.startswith("ok") else None, eids)
         if prop == "C11":
@@ -539,6 +546,14 @@ def second_pass(prop, lines, fams, results, rnd):
                 pkt = gen.hx(b[:n])
                 for cid in _receivers(lines):
                     extra.append(("rtdec %s %s %s %s" % (cid, t[1], " ".join(t[2:-1]), pkt), "rt:" + t[3]))
+    if prop == "C16":
+        # the same call again into a buffer of exactly the reported length, and one byte more
+        for l, (o, m, iv, mv) in zip(lines, results):
+            t = l.split()
+            if t[0] in ("enc", "encr") and o.startswith("ok"):
+                st, n, b = _enc_parts(o)
+                for extra_len, fill in ((0, 0x00), (0, 0xFF), (1, 0xA5)):
+                    extra.append((" ".join(t[:-1]) + " " + gen.hx([fill] * (n + extra_len)), "exact-fit:" + t[3]))
     if prop == "C04":
         k = 0
         for l, (o, m, iv, mv) in zip(lines, results):
